@@ -30,7 +30,7 @@ for p in props:
         n = os.path.join(HERE, "seeded", "%s-%d" % (pid, k), "note.md")
         txt = open(n).read().strip() if os.path.exists(n) else ""
         prev.append("Previous change %d (do NOT repeat this idea or a close "
-                    "variant):\n%s\n" % (k, txt[:520]))
+                    "variant):\n%s\n" % (k, txt[:330]))
         k += 1
     text = tmpl.format(
         wt=wt, out=out, pid=pid, title=p["title"], statement=p["statement"],
